@@ -4,6 +4,7 @@ package main
 
 import (
 	"fmt"
+	"math/big"
 	"sort"
 	"strconv"
 	"strings"
@@ -534,6 +535,80 @@ func checkC12(r *Result) {
 		r.check(okAll && subs == 1 && adds == 3, "VOTE-GUARDS", "(x/dispute/keeper.Keeper).SetVoterReporterStake # a selector's stake counts once: subtracted from a reporter that voted, else remembered for the reporter's later vote", P.Pos(sv.Pos()), fmt.Sprintf("subtract sites %d, add sites %d %s", subs, adds, det))
 	}
 
+	// the counters are updated for this dispute with the voter's tokens, and the reporter's own vote excludes what its
+	// selectors already voted with
+	if sv := need("(x/dispute/keeper.Keeper).SetVoterReporterStake"); sv != nil {
+		tmv := NewTermer()
+		n := 0
+		for _, cs := range P.CallSitesIn(sv) {
+			if cs.Callee == "(x/dispute/keeper.Keeper).AddReporterVoteCount" || cs.Callee == "(x/dispute/keeper.Keeper).SubtractReporterVoteCount" {
+				n++
+				id, amt := tmv.Of(Arg(cs.Instr, 1)), tmv.Of(Arg(cs.Instr, 2))
+				ok := id.Op == "param:2:uint64" && amt.Op == "call:(cosmossdk.io/math.Int).Uint64" && (amt.Contains("GetDelegatorTokensAtBlock") || amt.Contains("GetReporterTokensAtBlock"))
+				r.check(ok, "VOTE-GUARDS", "(x/dispute/keeper.Keeper).SetVoterReporterStake # "+cs.Method+" is given this dispute's id and the voter's tokens", P.Pos(cs.Pos()), "id: "+id.Brief()+" ; amount: "+clip(amt.String(), 120))
+			}
+		}
+		r.check(n == 4, "VOTE-GUARDS", "(x/dispute/keeper.Keeper).SetVoterReporterStake # four counter updates", P.Pos(sv.Pos()), fmt.Sprint(n))
+		lev := &linEval{Atomise: func(t *Term) string {
+			switch {
+			case t.Op == "ext:0" && t.Contains("GetReporterTokensAtBlock"):
+				return "reporterTokens"
+			case t.Op == "ext:0" && t.Contains("GetDelegatorTokensAtBlock"):
+				return "selectorTokens"
+			case t.Op == "phi" && t.Contains("ReportersWithDelegatorsVotedBefore"):
+				return "votedBefore"
+			}
+			return ""
+		}}
+		okOwn, detOwn := false, ""
+		for _, cs := range P.CallSitesIn(sv) {
+			if cs.Callee == "(x/dispute/keeper.Keeper).AddReporterVoteCount" {
+				amt := Arg(cs.Instr, 2)
+				if c, isCall := amt.(*ssa.Call); isCall && len(c.Call.Args) == 1 {
+					p := lev.Eval(tmv.Of(c.Call.Args[0])).String()
+					if strings.Contains(p, "reporterTokens") {
+						okOwn = p == "reporterTokens^1 + -1 * votedBefore^1" || p == "-1 * votedBefore^1 + reporterTokens^1" || p == "reporterTokens^1 - votedBefore^1"
+						detOwn = p
+					}
+				}
+			}
+			if cs.Desc() == "coll:x/dispute/keeper.Keeper.ReportersWithDelegatorsVotedBefore.Set" {
+				p := lev.Eval(tmv.Of(Arg(cs.Instr, 2))).String()
+				r.check(p == "selectorTokens^1 + votedBefore^1" || p == "votedBefore^1 + selectorTokens^1", "VOTE-GUARDS", "(x/dispute/keeper.Keeper).SetVoterReporterStake # a selector voting first adds its tokens to what the reporter's later vote leaves out", P.Pos(cs.Pos()), p)
+			}
+		}
+		r.check(okOwn, "VOTE-GUARDS", "(x/dispute/keeper.Keeper).SetVoterReporterStake # the reporter votes with its tokens minus what its selectors voted with before", P.Pos(sv.Pos()), detOwn)
+	}
+	if vh := need("(x/dispute/keeper.msgServer).Vote"); vh != nil {
+		tmv := NewTermer()
+		lev := &linEval{Atomise: func(t *Term) string {
+			for _, h := range []string{"SetTeamVote", "SetVoterTips", "SetVoterReporterStake", "SetTokenholderVote"} {
+				if t.Op == "ext:0" && t.Contains("Keeper)."+h) {
+					return h
+				}
+			}
+			return ""
+		}}
+		n := 0
+		for _, b := range vh.Blocks {
+			for _, in := range b.Instrs {
+				if st, ok := in.(*ssa.Store); ok {
+					if fa, ok := st.Addr.(*ssa.FieldAddr); ok && fieldName(fa.X.Type(), fa.Field) == "x/dispute/types.Voter.VoterPower" {
+						n++
+						p := lev.Eval(tmv.Of(st.Val))
+						ok := len(p.terms) == 4
+						for _, c := range p.terms {
+							if c.Cmp(big.NewRat(1, 1)) != 0 {
+								ok = false
+							}
+						}
+						r.check(ok, "VOTE-GUARDS", "(x/dispute/keeper.msgServer).Vote # the recorded voter power is the sum of the four group powers", P.Pos(st.Pos()), p.String())
+					}
+				}
+			}
+		}
+		r.check(n == 1, "VOTE-GUARDS", "(x/dispute/keeper.msgServer).Vote # one write of the voter power", P.Pos(vh.Pos()), fmt.Sprint(n))
+	}
 	// ---- TALLY-FORMULA
 	checkTallyFormula(r)
 
@@ -758,6 +833,43 @@ func checkC12(r *Result) {
 			}
 		}
 		r.check(okAll && n > 0 && due != nil, "PERSISTED", "x/dispute.CheckOpenDisputesForExpiration # each visit stores a dispute it failed and tallies an ended vote that has no result", P.Pos(hook.Pos()), fmt.Sprintf("%d back edges %s", n, det))
+		// deadlines: the hook tallies only after the vote end, and fails a prevote dispute only after its end time
+		{
+			pd := AnalyzePaths(hook, []Atom{
+				{Name: "voteEnded", Cond: func(rel *Term) (bool, bool) {
+					if rel.Op == "<" && len(rel.Args) == 2 && strings.HasPrefix(rel.Args[0].Op, "field:x/dispute/types.Vote.VoteEnd") && strings.HasSuffix(rel.Args[1].Op, "Context).BlockTime") {
+						return true, true
+					}
+					return false, false
+				}},
+				{Name: "feeTimeOver", Cond: func(rel *Term) (bool, bool) {
+					if rel.Op == "<" && len(rel.Args) == 2 && strings.HasPrefix(rel.Args[0].Op, "field:x/dispute/types.Dispute.DisputeEndTime") && strings.HasSuffix(rel.Args[1].Op, "Context).BlockTime") {
+						return true, true
+					}
+					return false, false
+				}},
+			})
+			okT, okF, nT, nF := true, true, 0, 0
+			for _, b := range hook.Blocks {
+				for _, in := range b.Instrs {
+					if c, ok := in.(ssa.CallInstruction); ok {
+						if cs := P.siteOf(c); cs != nil && cs.Callee == "(x/dispute/keeper.Keeper).TallyVote" {
+							nT++
+							if bad := pd.Require(in, func(v map[string]bool) bool { return v["voteEnded"] }); len(bad) > 0 {
+								okT = false
+							}
+						}
+					}
+					if storesStatus(in, stFailed) {
+						nF++
+						if bad := pd.Require(in, func(v map[string]bool) bool { return v["feeTimeOver"] }); len(bad) > 0 {
+							okF = false
+						}
+					}
+				}
+			}
+			r.check(okT && nT == 1 && okF && nF == 1, "PERSISTED", "x/dispute.CheckOpenDisputesForExpiration # tallies only after the vote end, fails a dispute only after its funding time", P.Pos(hook.Pos()), fmt.Sprintf("tally under 'VoteEnd < now': %v ; Failed under 'DisputeEndTime < now': %v", okT, okF))
+		}
 	}
 	// voting -> resolved / unresolved: TallyVote writes only for a vote that has no result yet, and the quorum flag
 	// handed to UpdateDispute agrees with the quorum test that was taken
@@ -968,6 +1080,98 @@ func checkTallyFormula(r *Result) {
 	}
 	for _, g := range []string{"Users", "Reporters", "Tokenholders"} {
 		r.check(groupShares[g] == 3, "TALLY-FORMULA", "(x/dispute/keeper.Keeper).TallyVote # three shares for group "+g, P.Pos(tv.Pos()), fmt.Sprintf("%d", groupShares[g]))
+	}
+	// the three results handed to UpdateDispute are the sums of the groups' shares of the matching choice (support with
+	// support, against with against, invalid with invalid), plus the team's weight, starting at zero
+	{
+		nCalls := 0
+		for _, cs := range P.CallSitesIn(tv) {
+			if cs.Callee != "(x/dispute/keeper.Keeper).UpdateDispute" {
+				continue
+			}
+			nCalls++
+			for k, choice := range []string{"Support", "Against", "Invalid"} {
+				v := Arg(cs.Instr, 4+k)
+				// strip TruncateInt and the common rescaling by the number of groups
+				for i := 0; i < 4; i++ {
+					c, isCall := v.(*ssa.Call)
+					if !isCall {
+						break
+					}
+					n := CalleeName(c.Common())
+					if n == "(cosmossdk.io/math.LegacyDec).TruncateInt" || (n == "(cosmossdk.io/math.LegacyDec).Quo" && len(c.Call.Args) == 2 && tm.Of(c.Call.Args[1]).Contains("numGroups")) || n == "(cosmossdk.io/math.LegacyDec).Quo" && len(c.Call.Args) == 2 && !le.Eval(tm.Of(c.Call.Args[1])).IsZero() && strings.Contains(tm.Of(c.Call.Args[1]).String(), "LegacyNewDecFromInt") {
+						v = c.Call.Args[0]
+						continue
+					}
+					break
+				}
+				adds, bases := decSumWeb(v)
+				okSum, det := len(adds) >= 2, fmt.Sprintf("%d addends", len(adds))
+				for _, b := range bases {
+					if b.Op != "call:cosmossdk.io/math.LegacyZeroDec" && b.Op != "call:cosmossdk.io/math.LegacyNewDecFromInt" {
+						okSum, det = false, "the sum does not start at zero: "+b.Brief()
+					}
+				}
+				shares := 0
+				for _, a := range adds {
+					p := le.Eval(tm.Of(a))
+					_, m, single := p.Single()
+					if !single {
+						okSum, det = false, "an addend is not a single share: "+clip(p.String(), 80)
+						continue
+					}
+					num := ""
+					for at, e := range m {
+						if e == 1 && strings.Contains(at, ".") && !strings.HasPrefix(at, "{") {
+							num = at
+						}
+					}
+					switch {
+					case num == "" && len(m) == 1 && m["PR"] == 1:
+						// the team's weight
+					case strings.HasSuffix(num, "."+choice):
+						shares++
+					default:
+						okSum, det = false, "an addend of the "+choice+" result is the share "+num
+					}
+				}
+				if shares < 2 {
+					okSum = false
+					det += fmt.Sprintf(" ; %d group shares", shares)
+				}
+				r.check(okSum, "TALLY-FORMULA", "(x/dispute/keeper.Keeper).TallyVote # the "+choice+" result handed to UpdateDispute sums the groups' "+choice+" shares", P.Pos(cs.Pos()), det)
+			}
+		}
+		r.check(nCalls == 3, "TALLY-FORMULA", "(x/dispute/keeper.Keeper).TallyVote # three UpdateDispute sites (quorum before / after the holders, no quorum)", P.Pos(tv.Pos()), fmt.Sprint(nCalls))
+	}
+	// the participation ratio is the sum of the groups' ratios (and the team's 25 * PR), starting at zero
+	{
+		var quorumArg ssa.Value
+		for _, b := range tv.Blocks {
+			if iff, ok := b.Instrs[len(b.Instrs)-1].(*ssa.If); ok {
+				if c, isCall := iff.Cond.(*ssa.Call); isCall && CalleeName(c.Common()) == "(cosmossdk.io/math.Int).GTE" && tm.Of(c.Call.Args[1]).Contains("const:51") {
+					quorumArg = c.Call.Args[0]
+				}
+			}
+		}
+		okR, det := false, "quorum comparison not found"
+		if quorumArg != nil {
+			adds, bases := sumWeb(quorumArg)
+			nRatio, other := 0, 0
+			for _, a := range adds {
+				switch {
+				case a.Op == "call:x/dispute/keeper.Ratio":
+					nRatio++
+				case a.Contains("const:25"):
+				default:
+					other++
+				}
+			}
+			okBase := len(bases) == 1 && bases[0].Op == "call:cosmossdk.io/math.ZeroInt"
+			okR = nRatio == 3 && other == 0 && okBase
+			det = fmt.Sprintf("%d group ratios, %d other addends, starts at zero: %v", nRatio, other, okBase)
+		}
+		r.check(okR, "TALLY-FORMULA", "(x/dispute/keeper.Keeper).TallyVote # the ratio compared with the quorum is the sum of the three group ratios and the team's 25 * PR", P.Pos(tv.Pos()), det)
 	}
 	// quorum constant and team weights
 	q := 0
